@@ -693,7 +693,7 @@ def run_c28(res):
                 "ff03ff02ff05ff0b80", "ff0eff02ff05ff0b80", "ff09ff02ff0580", "ff15ff02ff0580", "ff10ff02ff05ff0bff1780", "80", "ff0180", "ff01ff02ff0380", "ffff010180", "ff06ff0180"]
     if not QUICK:
         mods_txt += ["ff0cff02ff05ff0b80", "ff0dff0280", "ff11ff02ff0580", "ff13ff02ff0580", "ff16ff02ff0580", "ff18ff02ff0580", "ff1bff0280", "ff20ff0280", "ff21ff02ff0580", "ff07ff0280",
-                     "ff05ff0280", "ff06ff0280", "ff02ffff0101ff0180", "ff02ffff01ff10ff02ff0580ff0180", "ff3cff02ff05ff0b80", "ff30ff02ff05ff0b80", "8200ff", "ff8200ffff0280", "ff24ffff0164ffff0180ffff01ff0101ff0180", "ffff0280"]
+                     "ff05ff0280", "ff06ff0280", "ff02ffff0101ff0180", "ff02ffff01ff10ff02ff0580ff0180", "ff3cff02ff05ff0b80", "ff30ff02ff05ff0b80", "8200ff", "ff8200ffff0280", "ff24ffff0164ffff0180ffff01ff0101ff0180", "ffff028080"]
     mods = [bytes.fromhex(m) for m in mods_txt]
     a6 = [b"\x80", b"\x01", b"\x02", b"\x81\x80", b"\x82\x00\x80", b"\x81\xff"]
     arglists = [()] + [(a,) for a in a6] + [(a, b) for a in a6 for b in a6] + [(a, b, c2) for a in a6[:3] for b in a6[:3] for c2 in a6[:3]] + [(b"\xff\x01\x02",), (b"\xff\x01\x02", b"\x80")]
